@@ -2674,11 +2674,11 @@ FN_CLASS = {u[1]: FnE for u in SRCE_UNITS}
 BY_MODULE = {}      # dotted module name -> the first translator made for its file (filled by generate())
 
 # ---- SRCD: the units of CTOR_FN_UNITS are read by the subclass CtorFn of Fn (harness/gen/pysrc_ctor.py); every other unit by Fn
-_is_value_base = is_value
+_is_value_base_srcd = is_value
 
 
 def is_value(t):
-    return t in ("mod", "optstr", "inttuple") or _is_value_base(t)
+    return t in ("mod", "optstr", "inttuple") or _is_value_base_srcd(t)
 
 
 COQTY.update({"mod": "Z", "optstr": "(option string)", "inttuple": "(list Z)"})
